@@ -83,3 +83,14 @@ void h_lemma_rn_roundtrip(void)
   __CPROVER_assert(0, "vacuity canary");
 #endif
 }
+
+/* ---- byte order ---- */
+#include "K_rd_conv.c"
+#include "K_rd_recurse.c"
+static void bo_ghosts(void) { g_inner_calls = 0; g_inner_wrong = 0; g_caller_bo = nondet_int(); g_same_type = nondet_bool(); g_contiguous = nondet_bool(); }
+void h_K_rd_conv(void) { float* f; bo_ghosts(); K_rd_conv(f, nondet_int()); }
+void h_K_rd_recurse(void) { bo_ghosts(); K_rd_recurse(nondet_int(), nondet_int()); }
+#include "K_wr_fixed_1d.c"
+#include "K_wr_fixed_recurse.c"
+void h_K_wr_fixed_1d(void) { bo_ghosts(); K_wr_fixed_1d(nondet_float(), nondet_int(), nondet_bool()); }
+void h_K_wr_fixed_recurse(void) { bo_ghosts(); K_wr_fixed_recurse(nondet_int(), nondet_float(), nondet_int(), nondet_bool()); }
